@@ -1,8 +1,12 @@
 /-
-  SPAN / WINDING COHERENCE, part 9: the loop.  `AllOk f s`: in the run of `tessellator_loop f` from
-  `s`, every `process_events` call scans without error and conserves the winding (`StepOk`).
-  Theorem: from a coherent state such a run never panics (except for the assertion when
-  `next_after` is not increasing).
+  SPAN / WINDING COHERENCE, part 9: the loop and the executable certificate
+  (`Model/Tess/SweepCert.lean`: `allOkB`, `cleanRunB`, `cleanB`).
+
+  Theorem (`loop_coh`, `tessellateImpl_clean`, `tessellate_clean`): a run whose certificate is `true`
+  fails only in the ways `A` allows, under `NextUpOk α ∨ mAssert ∈ A` and `NoNaN α ∨ mNaN ∈ A` - for
+  EVERY scalar type: the agreement of the scan's two on-edge tests is not a hypothesis any more but
+  part of the certificate (`scanAgreeB`, checked on every scan result), and so is the coherence of
+  the state that `recover_from_error` leaves (`cohB`).
 -/
 import LyonVerif.Lemmas.SweepSafeCohLoop
 
@@ -18,29 +22,11 @@ open Std.Do
 variable {α : Type} [Scalar α] [Wide α]
 variable {A : List String}
 
-/-- the state handed to the next iteration of `tessellator_loop` -/
-def nextSt (s : St α) : St α := { s with curEvent := s.q.nextId s.curEvent }
-
 /-- one `process_events` call from `s1` to `s2`: the scan succeeded and the winding is conserved -/
 def StepOk (s1 s2 : St α) : Prop :=
   match scanActiveEdges s1 with
   | .error _ => False
   | .ok scan => ∀ W, NewSt s1 scan (Zf s1 scan W) W s2 → EventOkW s1 scan W
-
-def ProcOk (P : St α → Prop) (s1 : St α) : Prop :=
-  match ((processEvents : SM α (Option IErr)).run.run s1 : Except Fail (Option IErr) × St α) with
-  | (.ok _, s2) => StepOk s1 s2 ∧ P (nextSt s2)
-  | (.error _, _) => True
-
-def InitOk (P : St α → Prop) (s : St α) : Prop :=
-  match ((initializeEvents : SM α Unit).run.run s : Except Fail Unit × St α) with
-  | (.ok _, s1) => ProcOk P s1
-  | (.error _, _) => True
-
-/-- every event of the run of `tessellator_loop f` from `s` is a `StepOk` -/
-def AllOk : Nat → St α → Prop
-  | 0, _ => True
-  | f+1, s => s.curEvent = INVALID ∨ InitOk (AllOk f) s
 
 theorem initializeEvents_frame (s : St α) :
     ⦃fun s' => ⌜s' = s⌝⦄ (initializeEvents : SM α Unit)
@@ -54,93 +40,6 @@ theorem initializeEvents_frame (s : St α) :
     | exact allowed_fuel
     | (have h := ‹(_ : St α) = s›; subst h; exact ⟨rfl, rfl, rfl, rfl⟩)
 
-
-variable {tol : α}
-
-theorem init_ok_spec (P : St α → Prop) :
-    ⦃fun s => ⌜Coh s ∧ s.tolerance = tol ∧ InitOk P s⌝⦄ (initializeEvents : SM α Unit)
-    ⦃safePost A fun _ s1 => Coh s1 ∧ s1.tolerance = tol ∧ ProcOk P s1⦄ := by
-  intro s h
-  have hf := (wp_iff_run _ _ _ s).mp (initializeEvents_frame (A := A) s s rfl)
-  refine (wp_iff_run _ _ _ s).mpr ?_
-  have hI := h.2.2
-  unfold InitOk at hI
-  revert hf hI
-  generalize ((initializeEvents : SM α Unit).run.run s : Except Fail Unit × St α) = r
-  obtain ⟨res, s1⟩ := r
-  cases res with
-  | error e => intro hf _; exact hf
-  | ok u =>
-    intro hf hI
-    exact ⟨h.1.frame hf.1 hf.2.1 hf.2.2.1, by rw [hf.2.2.2]; exact h.2.1, hI⟩
-
-theorem proc_ok_spec (hH : HorizAgree tol) (hUp : NextUpOk α ∨ mAssert ∈ A) (P : St α → Prop) :
-    ⦃fun s1 => ⌜Coh s1 ∧ s1.tolerance = tol ∧ ProcOk P s1⌝⦄ (processEvents : SM α (Option IErr))
-    ⦃safePost A fun r s2 => r = none ∧ Coh s2 ∧ s2.tolerance = tol ∧ P (nextSt s2)⦄ := by
-  intro s1 h
-  have hH1 : HorizAgree s1.tolerance := by rw [h.2.1]; exact hH
-  have hf := (wp_iff_run _ _ _ s1).mp (processEvents_coh_at (A := A) s1 h.1 hH1 hUp s1 rfl)
-  refine (wp_iff_run _ _ _ s1).mpr ?_
-  have hI := h.2.2
-  unfold ProcOk at hI
-  revert hf hI
-  generalize ((processEvents : SM α (Option IErr)).run.run s1 : Except Fail (Option IErr) × St α) = r
-  obtain ⟨res, s2⟩ := r
-  cases res with
-  | error e => intro hf _; exact hf
-  | ok r =>
-    intro hf hI
-    obtain ⟨hstep, hP⟩ := hI
-    unfold EvPost at hf
-    unfold StepOk at hstep
-    cases hsc : scanActiveEdges s1 with
-    | error e => rw [hsc] at hstep; exact hstep.elim
-    | ok scan =>
-      rw [hsc] at hf hstep
-      obtain ⟨hr, W, hN⟩ := hf
-      have hb := of_scan_both hsc
-      have hev := hstep W hN
-      exact ⟨hr, coh_after hb.1 hb.2 h.1 hH1 hev hN, by rw [hN.tol]; exact h.2.1, hP⟩
-
-theorem Coh.next {s : St α} (h : Coh s) : Coh (nextSt s) := h.frame rfl rfl rfl
-
-/-- **the loop**: from a coherent state, a run in which every event is `StepOk` fails only in the ways
-`A` allows - with `NextUpOk` not at all by a panic -/
-theorem loop_coh (hH : HorizAgree tol) (hUp : NextUpOk α ∨ mAssert ∈ A) : ∀ f : Nat,
-    ⦃fun s => ⌜Coh s ∧ s.tolerance = tol ∧ AllOk f s⌝⦄ (tessellatorLoop f : SM α Unit)
-    ⦃safePost A fun _ _ => True⦄
-  | 0 => by
-    unfold tessellatorLoop
-    mvcgen
-    exact allowed_fuel
-  | f+1 => by
-    have ih := loop_coh hH hUp f
-    have h1 := init_ok_spec (α := α) (A := A) (tol := tol) (AllOk f)
-    have h2 := proc_ok_spec (α := α) (A := A) (tol := tol) hH hUp (AllOk f)
-    unfold tessellatorLoop
-    strip_mdata
-    mvcgen [ih, h1, h2]
-    all_goals first
-      | exact allowed_fuel
-      | (rename_i s h hne
-         refine ⟨h.1, h.2.1, ?_⟩
-         have hA := h.2.2
-         unfold AllOk at hA
-         rcases hA with hA | hA
-         · exfalso; rw [hA] at hne; simp at hne
-         · exact hA)
-      | (have h := ‹True ∧ Coh _ ∧ _›
-         exact ⟨h.2.1.next, h.2.2.1, h.2.2.2⟩)
-      | (have h := ‹some _ = none ∧ _›
-         exact absurd h.1 (by simp))
-
-
-/-! ### an executable certificate for `AllOk` -/
-
-/-- the windings of the edges inserted by the event, read off the new active list -/
-def Wof (s1 : St α) (scan : Scan) (s2 : St α) : List Int :=
-  (((sigs s2).drop (scan.aboveStart + bi scan.mergeEvent)).take
-    ((sigs s2).length - (scan.aboveStart + bi scan.mergeEvent) - (s1.active.size - scan.aboveEnd))).map (·.2)
 
 theorem Wof_eq {s1 s2 : St α} {scan : Scan} {Z : Nat} {W : List Int} (hok : ScanOk s1 scan)
     (hN : NewSt s1 scan Z W s2) : Wof s1 scan s2 = W := by
@@ -167,13 +66,6 @@ theorem Wof_eq {s1 s2 : St α} {scan : Scan} {Z : Nat} {W : List Int} (hok : Sca
   have : ((fun x : Bool × Int => x.2) ∘ fun k => ((false, k) : Bool × Int)) = id := by funext k; rfl
   rw [this, List.map_id]
 
-def eventOkB (s1 : St α) (scan : Scan) (W : List Int) : Bool :=
-  decide ((pfold s1.rule (Wat s1 scan.aboveStart) W).number = (Wat s1 scan.aboveEnd).number) &&
-  (!W.isEmpty || scan.mergeEvent ||
-    (decide (scan.aboveStart < scan.aboveEnd) && !scan.mergeSplitEvent && !(Wat s1 scan.aboveStart).isIn) ||
-    (decide (scan.aboveStart = scan.aboveEnd) && !(Wat s1 scan.aboveStart).isIn)) &&
-  (!scan.mergeEvent || W.isEmpty)
-
 theorem eventOk_of_B {s1 : St α} {scan : Scan} {W : List Int} (h : eventOkB s1 scan W = true) :
     EventOkW s1 scan W := by
   unfold eventOkB at h
@@ -191,11 +83,6 @@ theorem eventOk_of_B {s1 : St α} {scan : Scan} {W : List Int} (h : eventOkB s1 
     · rw [hm] at h3; cases h3
     · cases W <;> simp_all
 
-def stepOkB (s1 s2 : St α) : Bool :=
-  match scanActiveEdges s1 with
-  | .error _ => false
-  | .ok scan => eventOkB s1 scan (Wof s1 scan s2)
-
 theorem stepOk_of_B {s1 s2 : St α} (h : stepOkB s1 s2 = true) : StepOk s1 s2 := by
   unfold stepOkB at h
   unfold StepOk
@@ -208,64 +95,244 @@ theorem stepOk_of_B {s1 s2 : St α} (h : stepOkB s1 s2 = true) : StepOk s1 s2 :=
     rw [Wof_eq (of_scan_both hsc).1 hN] at h
     exact eventOk_of_B h
 
-/-- the executable version of `AllOk` -/
-def allOkB : Nat → St α → Bool
-  | 0, _ => true
-  | f+1, s =>
-    s.curEvent == INVALID ||
-    (match ((initializeEvents : SM α Unit).run.run s : Except Fail Unit × St α) with
-     | (.ok _, s1) =>
-       (match ((processEvents : SM α (Option IErr)).run.run s1 : Except Fail (Option IErr) × St α) with
-        | (.ok _, s2) => stepOkB s1 s2 && allOkB f (nextSt s2)
-        | (.error _, _) => true)
-     | (.error _, _) => true)
 
-theorem allOk_of_B : ∀ (f : Nat) (s : St α), allOkB f s = true → AllOk f s
-  | 0, _, _ => trivial
-  | f+1, s, h => by
-    unfold allOkB at h
-    unfold AllOk
-    simp only [Bool.or_eq_true, beq_iff_eq] at h
-    rcases h with h | h
-    · exact Or.inl h
-    · right
-      unfold InitOk
-      revert h
-      generalize ((initializeEvents : SM α Unit).run.run s : Except Fail Unit × St α) = r
-      obtain ⟨res, s1⟩ := r
-      cases res with
-      | error e => intro _; trivial
-      | ok u =>
-        unfold ProcOk
-        dsimp only
-        generalize ((processEvents : SM α (Option IErr)).run.run s1 : Except Fail (Option IErr) × St α) = r2
-        obtain ⟨res2, s2⟩ := r2
-        cases res2 with
-        | error e => intro _; trivial
-        | ok r =>
-          intro h
-          simp only [Bool.and_eq_true] at h
-          exact ⟨stepOk_of_B h.1, allOk_of_B f _ h.2⟩
+theorem coh_of_B {s : St α} (h : cohB s = true) : Coh s := by
+  unfold cohB at h
+  simp only [Bool.and_eq_true, decide_eq_true_eq, Bool.not_eq_true'] at h
+  obtain ⟨⟨⟨h1, h2⟩, h3⟩, h4⟩ := h
+  refine ⟨?_, h2, h3, ?_⟩
+  · intro k hk hn
+    exfalso
+    have := (Array.all_eq_true.mp h1) k hk
+    rw [hn] at this
+    cases this
+  · intro k e hk hm
+    have hlt : k < s.active.size := by
+      rcases Array.getElem?_eq_some_iff.mp hk with ⟨hh, _⟩; exact hh
+    have := (List.all_eq_true.mp h4) k (by simpa using hlt)
+    rw [hk] at this
+    simp only [hm, Bool.not_true, Bool.false_or] at this
+    exact this
 
+theorem Coh.next {s : St α} (h : Coh s) : Coh (nextSt s) := h.frame rfl rfl rfl
+
+theorem Coh.safe {tol : α} {s : St α} (h : Coh s) (ht : s.tolerance = tol) : Safe tol s :=
+  safe_iff.mpr ⟨h.live, ht⟩
+
+variable {tol : α}
+
+/-- the outcome of `process_events` on a coherent state whose scan succeeds and passes the checks -/
+theorem proc_core (hUp : NextUpOk α ∨ mAssert ∈ A) (rec : St α → Bool) (s1 : St α) (hc : Coh s1)
+    (ht : s1.tolerance = tol) (scan : Scan) (hsc : scanActiveEdges s1 = .ok scan)
+    (hG : scanAgreeB s1 scan = true) (hT : procTailB rec s1 = true) :
+    match ((processEvents : SM α (Option IErr)).run.run s1 : Except Fail (Option IErr) × St α) with
+    | (.ok r, s2) => r = none ∧ Coh s2 ∧ s2.tolerance = tol ∧ rec (nextSt s2) = true
+    | (.error f, _) => Allowed A f := by
+  have hG' : ∀ sc, scanActiveEdges s1 = .ok sc → ScanAgree s1 sc := by
+    intro sc h
+    rw [hsc] at h
+    cases h
+    exact scanAgree_of_B hG
+  have hf := (wp_iff_run _ _ _ s1).mp (processEvents_coh_at (A := A) s1 hc hG' hUp s1 rfl)
+  unfold procTailB at hT
+  revert hT
+  revert hf
+  generalize ((processEvents : SM α (Option IErr)).run.run s1 : Except Fail (Option IErr) × St α) = r
+  obtain ⟨res, s2⟩ := r
+  cases res with
+  | error e => intro hf _; exact hf
+  | ok r =>
+    intro hf hT
+    simp only [Bool.and_eq_true] at hT
+    have hstep := stepOk_of_B hT.1
+    unfold EvPost at hf
+    unfold StepOk at hstep
+    rw [hsc] at hf hstep
+    obtain ⟨hr, W, hN⟩ := hf
+    have hb := of_scan_both hsc
+    exact ⟨hr, coh_after hb.1 hb.2 hc (scanAgree_of_B hG) (hstep W hN) hN, by rw [hN.tol]; exact ht, hT.2⟩
+
+/-- ... and when the scan fails: `process_events` hands the error back, nothing the invariants read
+has changed -/
+theorem proc_err_core (hUp : NextUpOk α ∨ mAssert ∈ A) (s1 : St α) (hc : Coh s1) (ht : s1.tolerance = tol)
+    (e : IErr) (hsc : scanActiveEdges s1 = .error e) :
+    match ((processEvents : SM α (Option IErr)).run.run s1 : Except Fail (Option IErr) × St α) with
+    | (.ok r, s2) => r = some e ∧ Safe tol s2
+    | (.error f, _) => Allowed A f := by
+  have hG' : ∀ sc, scanActiveEdges s1 = .ok sc → ScanAgree s1 sc := by
+    intro sc h; rw [hsc] at h; cases h
+  have hf := (wp_iff_run _ _ _ s1).mp (processEvents_coh_at (A := A) s1 hc hG' hUp s1 rfl)
+  revert hf
+  generalize ((processEvents : SM α (Option IErr)).run.run s1 : Except Fail (Option IErr) × St α) = r
+  obtain ⟨res, s2⟩ := r
+  cases res with
+  | error f => intro hf; exact hf
+  | ok r =>
+    intro hf
+    unfold EvPost at hf
+    rw [hsc] at hf
+    exact ⟨hf.1, safe_iff.mpr ⟨hf.2.1 ▸ hc.live, by rw [hf.2.2.2.2]; exact ht⟩⟩
+
+theorem init_spec (rec : St α → Bool) :
+    ⦃fun s => ⌜Coh s ∧ s.tolerance = tol ∧ initTailB rec s = true⌝⦄ (initializeEvents : SM α Unit)
+    ⦃safePost A fun _ s1 => Coh s1 ∧ s1.tolerance = tol ∧ firstB rec s1 = true⦄ := by
+  intro s h
+  have hf := (wp_iff_run _ _ _ s).mp (initializeEvents_frame (A := A) s s rfl)
+  refine (wp_iff_run _ _ _ s).mpr ?_
+  have hI := h.2.2
+  unfold initTailB at hI
+  revert hI
+  revert hf
+  generalize ((initializeEvents : SM α Unit).run.run s : Except Fail Unit × St α) = r
+  obtain ⟨res, s1⟩ := r
+  cases res with
+  | error e => intro hf _; exact hf
+  | ok u =>
+    intro hf hI
+    exact ⟨h.1.frame hf.1 hf.2.1 hf.2.2.1, by rw [hf.2.2.2]; exact h.2.1, hI⟩
+
+/-- first attempt at an event -/
+theorem proc1_spec (hUp : NextUpOk α ∨ mAssert ∈ A) (rec : St α → Bool) :
+    ⦃fun s1 => ⌜Coh s1 ∧ s1.tolerance = tol ∧ firstB rec s1 = true⌝⦄ (processEvents : SM α (Option IErr))
+    ⦃safePost A fun r s2 => (r = none ∧ Coh s2 ∧ s2.tolerance = tol ∧ rec (nextSt s2) = true) ∨
+      (r ≠ none ∧ Safe tol s2 ∧ recTailB rec s2 = true)⦄ := by
+  intro s1 h
+  refine (wp_iff_run _ _ _ s1).mpr ?_
+  have hF := h.2.2
+  unfold firstB at hF
+  cases hsc : scanActiveEdges s1 with
+  | ok scan =>
+    rw [hsc] at hF
+    simp only [Bool.and_eq_true] at hF
+    have := proc_core (A := A) hUp rec s1 h.1 h.2.1 scan hsc hF.1 hF.2
+    revert this
+    generalize ((processEvents : SM α (Option IErr)).run.run s1 : Except Fail (Option IErr) × St α) = r
+    obtain ⟨res, s2⟩ := r
+    cases res with
+    | error f => intro h'; exact h'
+    | ok r => intro h'; exact Or.inl h'
+  | error e =>
+    rw [hsc] at hF
+    have := proc_err_core (A := A) hUp s1 h.1 h.2.1 e hsc
+    revert hF
+    revert this
+    generalize ((processEvents : SM α (Option IErr)).run.run s1 : Except Fail (Option IErr) × St α) = r
+    obtain ⟨res, s2⟩ := r
+    cases res with
+    | error f => intro h' _; exact h'
+    | ok r => intro h' hF; exact Or.inr ⟨by rw [h'.1]; simp, h'.2, hF⟩
+
+theorem rec_spec (hNaN : NoNaN α ∨ mNaN ∈ A) (rec : St α → Bool) :
+    ⦃fun s => ⌜Safe tol s ∧ recTailB rec s = true⌝⦄ (recoverFromError : SM α Unit)
+    ⦃safePost A fun _ s3 => Coh s3 ∧ s3.tolerance = tol ∧ secondB rec s3 = true⦄ := by
+  intro s h
+  have hf := (wp_iff_run _ _ _ s).mp (recoverFromError_safe (α := α) (tol := tol) (A := A) hNaN s h.1)
+  refine (wp_iff_run _ _ _ s).mpr ?_
+  have hR := h.2
+  unfold recTailB at hR
+  revert hR
+  revert hf
+  generalize ((recoverFromError : SM α Unit).run.run s : Except Fail Unit × St α) = r
+  obtain ⟨res, s3⟩ := r
+  cases res with
+  | error e => intro hf _; exact hf
+  | ok u =>
+    intro hf hR
+    simp only [Bool.and_eq_true] at hR
+    exact ⟨coh_of_B hR.1, (safe_iff.mp hf).2, hR.2⟩
+
+/-- the second `process_events` of an event (after the recovery), as a constant of its own so that the
+two calls get different specifications -/
+def processEventsAgain : SM α (Option IErr) := processEvents
+
+theorem proc2_spec (hUp : NextUpOk α ∨ mAssert ∈ A) (rec : St α → Bool) :
+    ⦃fun s3 => ⌜Coh s3 ∧ s3.tolerance = tol ∧ secondB rec s3 = true⌝⦄ (processEventsAgain : SM α (Option IErr))
+    ⦃safePost A fun r s4 => r = none → Coh s4 ∧ s4.tolerance = tol ∧ rec (nextSt s4) = true⦄ := by
+  intro s3 h
+  unfold processEventsAgain
+  refine (wp_iff_run _ _ _ s3).mpr ?_
+  have hF := h.2.2
+  unfold secondB at hF
+  cases hsc : scanActiveEdges s3 with
+  | ok scan =>
+    rw [hsc] at hF
+    simp only [Bool.and_eq_true] at hF
+    have := proc_core (A := A) hUp rec s3 h.1 h.2.1 scan hsc hF.1 hF.2
+    revert this
+    generalize ((processEvents : SM α (Option IErr)).run.run s3 : Except Fail (Option IErr) × St α) = r
+    obtain ⟨res, s4⟩ := r
+    cases res with
+    | error f => intro h'; exact h'
+    | ok r => intro h' _; exact h'.2
+  | error e =>
+    have := proc_err_core (A := A) hUp s3 h.1 h.2.1 e hsc
+    revert this
+    generalize ((processEvents : SM α (Option IErr)).run.run s3 : Except Fail (Option IErr) × St α) = r
+    obtain ⟨res, s4⟩ := r
+    cases res with
+    | error f => intro h'; exact h'
+    | ok r => intro h' hr; rw [h'.1] at hr; cases hr
+
+theorem tessellatorLoop_eq (f : Nat) : (tessellatorLoop (f + 1) : SM α Unit) = (do
+    let s ← get
+    if s.curEvent == INVALID then return
+    initializeEvents
+    match ← processEvents with
+    | none => pure ()
+    | some _ =>
+      recoverFromError
+      match ← processEventsAgain with
+      | none => pure ()
+      | some e =>
+        mark 1
+        throw (.err s!"Internal({e.toString})")
+    let s ← get
+    if s.q.fuelOut then throw .fuel
+    set { s with curEvent := s.q.nextId s.curEvent }
+    tessellatorLoop f) := by
+  rfl
+
+/-- **the loop**: from a coherent state, a run with a `true` certificate fails only in the ways `A`
+allows -/
+theorem loop_coh (hUp : NextUpOk α ∨ mAssert ∈ A) (hNaN : NoNaN α ∨ mNaN ∈ A) : ∀ f : Nat,
+    ⦃fun s => ⌜Coh s ∧ s.tolerance = tol ∧ allOkB f s = true⌝⦄ (tessellatorLoop f : SM α Unit)
+    ⦃safePost A fun _ _ => True⦄
+  | 0 => by
+    unfold tessellatorLoop
+    mvcgen
+    exact allowed_fuel
+  | f+1 => by
+    have ih := loop_coh hUp hNaN f
+    have h1 := init_spec (α := α) (A := A) (tol := tol) (allOkB f)
+    have h2 := proc1_spec (α := α) (A := A) (tol := tol) hUp (allOkB f)
+    have h3 := rec_spec (α := α) (A := A) (tol := tol) hNaN (allOkB f)
+    have h4 := proc2_spec (α := α) (A := A) (tol := tol) hUp (allOkB f)
+    rw [tessellatorLoop_eq]
+    strip_mdata
+    mvcgen [mark, ih, h1, h2, h3, h4]
+    all_goals first
+      | exact allowed_fuel
+      | exact allowed_err _
+      | (rename_i s h hne
+         refine ⟨h.1, h.2.1, ?_⟩
+         have hA := h.2.2
+         unfold allOkB at hA
+         simp only [Bool.or_eq_true] at hA
+         rcases hA with hA | hA
+         · exact absurd hA hne
+         · exact hA)
+      | (have h := ‹(True ∧ _) ∨ _›
+         rcases h with h | h
+         · exact ⟨h.2.1.next, h.2.2.1, h.2.2.2⟩
+         · exact absurd rfl h.1)
+      | (have h := ‹(some _ = none ∧ _) ∨ _›
+         rcases h with h | h
+         · exact absurd h.1 (by simp)
+         · exact h.2)
+      | (have h := ‹Coh _ ∧ _ ∧ _›
+         exact ⟨h.1.next, h.2.1, h.2.2⟩)
 
 /-! ### `tessellate_impl` / `tessellate` -/
-
-/-- the initial state of `tessellate_impl` -/
-def initSt (q : Queue α) (rule : Slab.Rule) (horizontal : Bool) (tol : α) (handleIx : Bool) : St α where
-  q := q
-  curPos := ⟨Wide.fmin, Wide.fmin⟩
-  curVertex := INVALID
-  curEvent := q.firstId
-  active := #[]
-  below := #[]
-  spans := #[]
-  pool := []
-  rule := rule
-  horizontal := horizontal
-  tolerance := tol * half
-  handleIntersections := handleIx
-  out := #[]
-  nverts := 0
 
 theorem coh_init (q : Queue α) (rule : Slab.Rule) (horizontal : Bool) (tol : α) (handleIx : Bool) :
     Coh (initSt q rule horizontal tol handleIx) := by
@@ -274,21 +341,17 @@ theorem coh_init (q : Queue α) (rule : Slab.Rule) (horizontal : Bool) (tol : α
   · simp [Wtot, Wat, wfold, initSt, WindingState.new]
   · intro k e hk; simp [initSt] at hk
 
-/-- the executable certificate: every event of the run scans without error and conserves the winding -/
-def cleanRunB (q : Queue α) (rule : Slab.Rule) (horizontal : Bool) (tol : α) (handleIx : Bool) : Bool :=
-  allOkB (4 * q.events.size * q.events.size + 1000) (initSt q rule horizontal tol handleIx)
 
 theorem tessellateImpl_clean (q : Queue α) (rule : Slab.Rule) (horizontal : Bool) (tol : α) (handleIx : Bool)
-    (hH : HorizAgree (tol * half)) (hUp : NextUpOk α ∨ mAssert ∈ A)
+    (hUp : NextUpOk α ∨ mAssert ∈ A) (hNaN : NoNaN α ∨ mNaN ∈ A)
     (hB : cleanRunB q rule horizontal tol handleIx = true) (f : Fail)
     (hf : (tessellateImpl q rule horizontal tol handleIx).1 = some f) : Allowed A f := by
   unfold tessellateImpl at hf
   split at hf
   · cases hf; exact allowed_err _
   · dsimp only at hf
-    have hall := allOk_of_B _ _ hB
-    have h := (wp_iff_run _ _ _ _).mp (loop_coh (α := α) (A := A) (tol := tol * half) hH hUp _
-      (initSt q rule horizontal tol handleIx) ⟨coh_init q rule horizontal tol handleIx, rfl, hall⟩)
+    have h := (wp_iff_run _ _ _ _).mp (loop_coh (α := α) (A := A) (tol := tol * half) hUp hNaN _
+      (initSt q rule horizontal tol handleIx) ⟨coh_init q rule horizontal tol handleIx, rfl, hB⟩)
     split at hf
     · rename_i f' heq
       have hff : f' = f := by simpa using hf
@@ -305,19 +368,14 @@ theorem tessellateImpl_clean (q : Queue α) (rule : Slab.Rule) (horizontal : Boo
       | ok u => cases heq'
     · cases hf
 
-/-- the certificate for the whole `FillTessellator` on polygonal input -/
-def cleanB (entry : Entry) (rule : Slab.Rule) (horizontal : Bool) (tol : α) (handleIx : Bool)
-    (subs : List (SubPath α)) : Bool :=
-  cleanRunB (buildQueue entry horizontal subs).sort rule horizontal tol handleIx
-
 theorem tessellate_clean (entry : Entry) (rule : Slab.Rule) (horizontal : Bool) (tol : α) (handleIx : Bool)
-    (subs : List (SubPath α)) (hH : HorizAgree (tol * half)) (hUp : NextUpOk α ∨ mAssert ∈ A)
+    (subs : List (SubPath α)) (hUp : NextUpOk α ∨ mAssert ∈ A) (hNaN : NoNaN α ∨ mNaN ∈ A)
     (hB : cleanB entry rule horizontal tol handleIx subs = true) (f : Fail)
     (hf : (tessellate entry rule horizontal tol handleIx subs).1 = some f) : Allowed A f := by
   unfold tessellate at hf
   dsimp only at hf
   split at hf
   · cases hf; exact allowed_unmodelled _
-  · exact tessellateImpl_clean _ _ _ _ _ hH hUp hB f hf
+  · exact tessellateImpl_clean _ _ _ _ _ hUp hNaN hB f hf
 
 end Lyon.SweepCoh
